@@ -708,6 +708,11 @@ func (e *env) adopt(resp *vkit.Resp, client, subject, flow string, h int) *grant
 	}
 	// owner and subject are what the request asked for (authenticated client; logged-in user / service account /
 	// subject of the exchanged token); a storage record that says otherwise is another property's finding
+	if subject == "" {
+		// a success the model did not demand (grey: lax storage, unbound token ...): the issued token is tracked as the
+		// storage recorded it, so that later strings that name it are not mistaken for garbage
+		subject = snap.Subject
+	}
 	if snap.ClientID != client || snap.Subject != subject {
 		e.res.Label("issue-mismatch:" + flow)
 		return nil
@@ -1244,7 +1249,7 @@ func (e *env) exchangeP(o Op, subj presented, actor *presented, h int) {
 	case subj.id && subj.base != nil: // ID token subject: the token issued for it names the ID token's subject
 		adoptSub = subj.base.subject
 	}
-	if ok && resp.Str("access_token") != "" && adoptSub != "" {
+	if ok && resp.Str("access_token") != "" {
 		if g := e.adopt(resp, cl.ID, adoptSub, "exchange", h); g != nil {
 			e.res.Label("issued-by-exchange:" + g.access.kind)
 		}
